@@ -15,6 +15,7 @@ import (
 
 const svTop = ons.Name("a.ol")
 const svSub = ons.Name("x.a.ol")
+const svSub2 = ons.Name("y.a.ol")
 
 // svBystander: somebody else's name whose text ends with that of a.ol without
 // being its sub-domain.
@@ -22,6 +23,7 @@ const svBystander = ons.Name("ba.ol")
 
 type svDomainPre struct {
 	present, subPresent bool
+	sub2Present         bool
 	owner, benef        int
 	expire              int64
 	onSale, active      bool
@@ -70,6 +72,12 @@ func svPreONS(pre *svDomainPre) func(e *svEnv) {
 			pre.subExpire = pre.expire
 			s, _ := ons.NewDomain(svParty_(pre.owner).Addr, svParty_(pre.owner).Addr, string(svSub), 1, "", pre.subExpire, true)
 			ds.Set(s)
+			// a second sub-domain of the same parent
+			pre.sub2Present = sv.Choice("sub2.present", 2) == 0
+			if pre.sub2Present {
+				s2, _ := ons.NewDomain(svParty_(pre.owner).Addr, svParty_(pre.owner).Addr, string(svSub2), 1, "", pre.subExpire, true)
+				ds.Set(s2)
+			}
 		}
 	}
 }
@@ -132,9 +140,9 @@ func svGetDomain(e *svEnv, n ons.Name) *ons.Domain {
 
 // SV_C20_ons_step: one ONS transaction of any kind from the symbolic registry.
 //
-// sv:bounds names {a.ol, x.a.ol} plus a bystander ba.ol (owned by the last party, never named by the transaction; its text ends with a.ol); a.ol absent or present with arbitrary owner/beneficiary among 2 (quick) / 3 (thorough) parties, expiry (0..2^40), sale flag and price, active flag; x.a.ol absent or present (owned by a.ol's owner); kind any of create/update/sell/purchase/send/renew/delete-sub; actor (owner/buyer/sender field, who signs) any party; amounts any integer in {OLT, unregistered} (quick) / any of the 4 currency names (thorough); balances arbitrary (< 2^100 nue); ONS options of the devnet genesis (base price 10^21, per-block 10^14); mempool-admitted regime; block height 20, committed version 2
+// sv:bounds names {a.ol, x.a.ol} plus a bystander ba.ol (owned by the last party, never named by the transaction; its text ends with a.ol); a.ol absent or present with arbitrary owner/beneficiary among 2 (quick) / 3 (thorough) parties, expiry (0..2^40), sale flag and price, active flag; x.a.ol absent or present (owned by a.ol's owner), and with it a second sub-domain y.a.ol absent or present; kind any of create/update/sell/purchase/send/renew/delete-sub; actor (owner/buyer/sender field, who signs) any party; amounts any integer in {OLT, unregistered} (quick) / any of the 4 currency names (thorough); balances arbitrary (< 2^100 nue); ONS options of the devnet genesis (base price 10^21, per-block 10^14); mempool-admitted regime; block height 20, committed version 2
 // sv:outside domain-name syntax beyond the two names; option changes; histories (one step)
-// sv:goal the bystander record never changes; owner, beneficiary, sale status/price, active flag, expiry and the sub-domain of a.ol change only if the actor is its current owner, or through a purchase; a purchase of a name on sale and not expired debits the buyer by at least the asking price and credits the previous owner exactly the asking price; a purchase of an expired name pays at least the base price into the fee pool and sets expiry = version + floor((offering - base)/perBlock), a purchase on sale extends the remaining life by floor((offering - price)/perBlock); create only succeeds for a name without a record, and sets expiry = version + floor((price - base)/perBlock) (a sub-name: its parent's expiry); renew extends the expiry by exactly floor(price/perBlock); the sub-name's expiry follows its parent's on renew
+// sv:goal the bystander record never changes; owner, beneficiary, sale status/price, active flag, expiry and the sub-domain of a.ol change only if the actor is its current owner, or through a purchase; a purchase of a name on sale and not expired debits the buyer by at least the asking price and credits the previous owner exactly the asking price; a purchase of an expired name pays at least the base price into the fee pool and sets expiry = version + floor((offering - base)/perBlock), a purchase on sale extends the remaining life by floor((offering - price)/perBlock); create only succeeds for a name without a record, and sets expiry = version + floor((price - base)/perBlock) (a sub-name: its parent's expiry); renew extends the expiry by exactly floor(price/perBlock); the sub-names' expiry follows their parent's on renew; a purchase and a delete-sub naming the parent remove every sub-domain, a delete-sub naming x.a.ol removes only that one
 func SV_C20_ons_step() {
 	pre := &svDomainPre{}
 	n := 3
@@ -151,16 +159,18 @@ func SV_C20_ons_step() {
 	raw, signers := svBuildONS(e, kind)
 	actor := signers[0]
 	top0, sub0, by0 := svGetDomain(e, svTop), svGetDomain(e, svSub), svGetDomain(e, svBystander)
+	sub20 := svGetDomain(e, svSub2)
 	version := e.app.Context.deliver.Version()
 	r := e.step(raw, signers, true)
 	top1, sub1, by1 := svGetDomain(e, svTop), svGetDomain(e, svSub), svGetDomain(e, svBystander)
+	sub21 := svGetDomain(e, svSub2)
 	sv.Assert(by0 != nil && svDomainsEqual(by0, by1), "a-name-that-no-transaction-names-is-untouched")
 	ok := r.resp.Code == 0
 	base, _ := new(big.Int).SetString("1000000000000000000000", 10)
 	perBlock := big.NewInt(100000000000000)
 
 	changedTop := !svDomainsEqual(top0, top1)
-	changedSub := !svDomainsEqual(sub0, sub1)
+	changedSub := !svDomainsEqual(sub0, sub1) || !svDomainsEqual(sub20, sub21)
 	if !ok {
 		sv.Assert(!changedTop && !changedSub, "failed-tx-leaves-the-registry-unchanged")
 	}
@@ -197,7 +207,8 @@ func SV_C20_ons_step() {
 			}
 			sv.Cover(true, "bought-expired")
 		}
-		sv.Assert(sub1 == nil, "purchase-removes-the-sub-domains")
+		sv.Assert(sub1 == nil && sub21 == nil, "purchase-removes-the-sub-domains")
+		sv.Cover(sub20 != nil, "bought-with-two-sub-domains")
 	}
 	if ok && kind == 0 {
 		// create
@@ -232,9 +243,23 @@ func SV_C20_ons_step() {
 		if sub1 != nil {
 			sv.Assert(sub1.ExpireHeight == top1.ExpireHeight, "sub-name-expiry-follows-parent-on-renew")
 		}
+		if sub21 != nil {
+			sv.Assert(sub21.ExpireHeight == top1.ExpireHeight, "sub-name-expiry-follows-parent-on-renew")
+		}
 		sv.Cover(true, "renewed")
 	}
 	sv.Cover(ok && kind == 2, "sale-updated")
+	if ok && kind == 6 {
+		// delete-sub names the sub-domain x.a.ol (only that one goes) or the parent (all go)
+		m := &action_ons.DeleteSub{}
+		m.Unmarshal(raw.Data)
+		if m.Name == svTop {
+			sv.Assert(sub1 == nil && sub21 == nil, "delete-on-the-parent-removes-every-sub-domain")
+			sv.Cover(sub20 != nil, "all-subs-deleted")
+		} else {
+			sv.Assert(sub1 == nil && svDomainsEqual(sub20, sub21), "delete-of-one-sub-domain-removes-only-that-one")
+		}
+	}
 	sv.Cover(ok && kind == 6, "sub-deleted")
 	sv.Cover(ok && kind == 4, "sent-to-domain")
 }
